@@ -70,25 +70,47 @@ Proof.
   change (x :: rev l) with ([x] ++ rev l). rewrite rev_app_distr, rev_involutive. reflexivity.
 Qed.
 
-Definition scrut_header (n : nat) (cfg : option text) : text :=
-  fence n ++ SCRUT ++ match cfg with Some c => [32; 123] ++ c ++ [125] | None => [] end.
-Lemma header_scrut : forall n cfg, (3 <= n)%nat -> (match cfg with Some c => c <> [] | None => True end) ->
-  exists cfgtext, extract_code_block_start (scrut_header n cfg) = Some (n, SCRUT, cfgtext) /\ inner_config cfgtext = cfg.
+(* blanks at the end of a line do not count *)
+Lemma drop_while_all : forall (p : N -> bool) a b, forallb p a = true -> drop_while p (a ++ b) = drop_while p b.
 Proof.
-  intros n cfg Hn Hc. unfold scrut_header.
-  assert (Hh: match SCRUT ++ match cfg with Some c => [32; 123] ++ c ++ [125] | None => [] end with c :: _ => c <> BT | [] => True end)
+  induction a as [|c a IH]; intros b H; [reflexivity|]. cbn [forallb] in H. apply andb_true_iff in H. destruct H as [H1 H2].
+  cbn [app drop_while]. rewrite H1. apply IH. exact H2.
+Qed.
+Lemma trim_end_white_suffix : forall l hs, forallb is_white hs = true -> trim_end (l ++ hs) = trim_end l.
+Proof.
+  intros l hs H. unfold trim_end. rewrite rev_app_distr. rewrite drop_while_all; [reflexivity|].
+  apply forallb_forall. intros x Hx. apply in_rev in Hx. rewrite forallb_forall in H. exact (H x Hx).
+Qed.
+Lemma white_no_brace : forall hs, forallb is_white hs = true -> forallb (fun c => negb (c =? 123)) hs = true.
+Proof.
+  intros hs H. apply forallb_forall. intros x Hx. rewrite forallb_forall in H. specialize (H x Hx).
+  destruct (x =? 123) eqn:E; [|reflexivity]. assert (x = 123) by lia. subst x. vm_compute in H. discriminate.
+Qed.
+
+Definition scrut_header (n : nat) (cfg : option text) (hs : text) : text :=
+  fence n ++ SCRUT ++ match cfg with Some c => [32; 123] ++ c ++ [125] | None => [] end ++ hs.
+Lemma header_scrut : forall n cfg hs, (3 <= n)%nat -> (match cfg with Some c => c <> [] | None => True end) ->
+  forallb is_white hs = true ->
+  exists cfgtext, extract_code_block_start (scrut_header n cfg hs) = Some (n, SCRUT, cfgtext) /\ inner_config cfgtext = cfg.
+Proof.
+  intros n cfg hs Hn Hc Hw. unfold scrut_header.
+  assert (Hh: match SCRUT ++ match cfg with Some c => [32; 123] ++ c ++ [125] | None => [] end ++ hs with c :: _ => c <> BT | [] => True end)
     by (cbn; discriminate).
   unfold extract_code_block_start. rewrite count_bt_fence by exact Hh. rewrite skipn_fence.
   assert (E: Nat.ltb n 3 = false) by (apply Nat.ltb_ge; lia).
   destruct cfg as [c|].
-  - change (SCRUT ++ [32; 123] ++ c ++ [125]) with ((SCRUT ++ [32]) ++ 123 :: (c ++ [125])).
-    destruct ((SCRUT ++ [32]) ++ 123 :: c ++ [125]) as [|x r] eqn:Ex; [discriminate|]. rewrite <- Ex. rewrite E.
+  - replace (SCRUT ++ ([32; 123] ++ c ++ [125]) ++ hs) with ((SCRUT ++ [32]) ++ 123 :: ((c ++ [125]) ++ hs))
+      by (rewrite <- !app_assoc; reflexivity).
+    destruct ((SCRUT ++ [32]) ++ 123 :: (c ++ [125]) ++ hs) as [|x r] eqn:Ex; [discriminate|]. rewrite <- Ex. rewrite E.
     rewrite split_at_brace_app by (vm_compute; reflexivity). rewrite trim_end_scrut_space.
     exists (123 :: c ++ [125]). split.
-    + change (123 :: c ++ [125]) with ((123 :: c) ++ [125]). rewrite trim_end_last by (vm_compute; reflexivity). reflexivity.
+    + change (123 :: (c ++ [125]) ++ hs) with ((123 :: c ++ [125]) ++ hs). rewrite trim_end_white_suffix by exact Hw.
+      change (123 :: c ++ [125]) with ((123 :: c) ++ [125]). rewrite trim_end_last by (vm_compute; reflexivity). reflexivity.
     + apply (inner_config_braces c Hc).
-  - rewrite app_nil_r. change SCRUT with [115; 99; 114; 117; 116] at 1. cbv iota. rewrite E.
-    rewrite split_at_brace_none by (vm_compute; reflexivity). rewrite trim_end_scrut. exists []. split; reflexivity.
+  - cbn [app]. change SCRUT with [115; 99; 114; 117; 116] at 1. cbn [app]. rewrite E.
+    change (115 :: 99 :: 114 :: 117 :: 116 :: hs) with (SCRUT ++ hs).
+    rewrite split_at_brace_none by (rewrite forallb_app, (white_no_brace hs Hw); vm_compute; reflexivity).
+    rewrite trim_end_white_suffix by exact Hw. rewrite trim_end_scrut. exists []. split; reflexivity.
 Qed.
 
 (* ---------- runs of the token automaton ---------- *)
@@ -167,7 +189,7 @@ Definition elem_tokens (idx : nat) (e : elem) : list token :=
   | EHeading k t => [TLine idx (hashes k ++ [32] ++ t)]
   | EBlank => [TLine idx []]
   | EForeign n lang body tail => [TVerb idx (lang_of lang) (render_elem e)]
-  | EScrut n cfg comments cmd tail => [TTest cfg comments (code_lines (idx + 1 + length comments) cmd) (render_elem e)]
+  | EScrut n cfg hs comments cmd tail => [TTest cfg comments (code_lines (idx + 1 + length comments) cmd) (render_elem e)]
   end.
 Definition next_first (first : bool) (e : elem) : bool :=
   first && match e with EFront _ | EBlank => true | EProse l => match trim l with [] => true | _ => false end | _ => false end.
@@ -218,7 +240,7 @@ Lemma elem_run : forall e first idx rest, elem_ok pe_ok front_ok cfg_ok first e 
   mrun (Top (negb first)) idx (render_elem e ++ rest)
   = elem_tokens idx e ++ mrun (Top (negb (next_first first e))) (idx + length (render_elem e)) rest.
 Proof.
-  intros e first idx rest H. destruct e as [lines|l|k t| |n lang body tail|n cfg comments cmd tail]; cbn [elem_ok] in H.
+  intros e first idx rest H. destruct e as [lines|l|k t| |n lang body tail|n cfg hs comments cmd tail]; cbn [elem_ok] in H.
   - (* front-matter *)
     apply andb_true_iff in H. destruct H as [H Hl]. apply andb_true_iff in H. destruct H as [Hf _]. subst first.
     assert (Hl': forallb (fun l => negb (list_eqb l DASHES)) lines = true).
@@ -261,21 +283,22 @@ Proof.
     cbn [app length]. rewrite !app_length. cbn [length]. unfold next_first. rewrite andb_false_r.
     f_equal. f_equal. unfold text. lia.
   - (* a scrut block *)
+    apply andb_true_iff in H. destruct H as [H Hhs]. apply andb_true_iff in Hhs. destruct Hhs as [Hw _].
     apply andb_true_iff in H. destruct H as [H Hcmd]. apply andb_true_iff in H. destruct H as [H Hcm]. apply andb_true_iff in H. destruct H as [H Hcfg].
     apply andb_true_iff in H. destruct H as [Hn _]. apply Nat.leb_le in Hn.
     assert (Hc: match cfg with Some c => c <> [] | None => True end).
     { destruct cfg as [c|]; [|exact I]. unfold cfg_text_ok in Hcfg. destruct c; [discriminate|discriminate]. }
-    destruct (header_scrut n cfg Hn Hc) as [cfgtext [Hx Hi]].
+    destruct (header_scrut n cfg hs Hn Hc Hw) as [cfgtext [Hx Hi]].
     assert (Hcm': forallb is_comment comments = true).
     { apply forallb_forall. intros x Hxx. rewrite forallb_forall in Hcm. specialize (Hcm x Hxx). apply andb_true_iff in Hcm. tauto. }
-    assert (E1: (negb (negb first) && list_eqb (scrut_header n cfg) DASHES) = false).
-    { unfold scrut_header. destruct (fence_head n (SCRUT ++ match cfg with Some c => [32; 123] ++ c ++ [125] | None => [] end) Hn) as [r Er].
+    assert (E1: (negb (negb first) && list_eqb (scrut_header n cfg hs) DASHES) = false).
+    { unfold scrut_header. destruct (fence_head n (SCRUT ++ match cfg with Some c => [32; 123] ++ c ++ [125] | None => [] end ++ hs) Hn) as [r Er].
       rewrite Er. rewrite not_dashes by discriminate. apply andb_false_r. }
     assert (Ec: is_comment (fence n ++ tail) = false).
     { destruct (fence_head n tail Hn) as [r2 Er2]. rewrite Er2. reflexivity. }
     destruct cmd as [[[c conts] body]|].
     + apply andb_true_iff in Hcmd. destruct Hcmd as [Hcmd Hbody]. apply andb_true_iff in Hcmd. destruct Hcmd as [_ Hconts].
-      cbn [render_elem elem_tokens]. fold (scrut_header n cfg). rewrite <- ?app_assoc. cbn [app].
+      cbn [render_elem elem_tokens]. fold (scrut_header n cfg hs). rewrite <- ?app_assoc. cbn [app].
       cbn [mrun mstep]. rewrite E1, Hx. change (list_eqb SCRUT SCRUT) with true. cbv iota. rewrite Hi. cbn [app].
       rewrite run_comments by exact Hcm'. cbn [app].
       cbn [mrun mstep]. change (is_comment (P_DOLLAR ++ c)) with false. cbv iota.
@@ -287,7 +310,7 @@ Proof.
       f_equal.
       * f_equal; [f_equal; f_equal; lia|]. rewrite <- ?app_assoc. cbn [app]. rewrite <- ?app_assoc. reflexivity.
       * f_equal. cbn [length]. rewrite !app_length. cbn [length]. rewrite !app_length. cbn [length]. unfold text. lia.
-    + cbn [render_elem elem_tokens]. fold (scrut_header n cfg). rewrite <- ?app_assoc. cbn [app].
+    + cbn [render_elem elem_tokens]. fold (scrut_header n cfg hs). rewrite <- ?app_assoc. cbn [app].
       cbn [mrun mstep]. rewrite E1, Hx. change (list_eqb SCRUT SCRUT) with true. cbv iota. rewrite Hi. cbn [app].
       rewrite run_comments by exact Hcm'. cbn [app].
       cbn [mrun mstep]. rewrite Ec. rewrite closes_fence. cbn [app].
@@ -433,7 +456,7 @@ Proof.
   - exists t, ic. reflexivity.
   - cbn [wf_md_from] in H. apply andb_true_iff in H. destruct H as [He Hd].
     cbn [tokens_from md_tests_from].
-    destruct e as [lines|l|k tt| |n lang body tail|n cfg comments cmd tail]; cbn [elem_ok] in He; cbn [elem_tokens app].
+    destruct e as [lines|l|k tt| |n lang body tail|n cfg hs comments cmd tail]; cbn [elem_ok] in He; cbn [elem_tokens app].
     + (* front-matter *)
       apply andb_true_iff in He. destruct He as [He _]. apply andb_true_iff in He. destruct He as [_ Hf].
       cbn [Markdown.parse_tokens]. rewrite Hf. eapply IH. exact Hd.
@@ -446,6 +469,7 @@ Proof.
       unfold lang_ok in Hl. apply andb_true_iff in Hl. destruct Hl as [_ Hne].
       cbn [Markdown.parse_tokens]. destruct (lang_of lang) as [|x r]; [discriminate|]. eapply IH. exact Hd.
     + (* a scrut block *)
+      apply andb_true_iff in He. destruct He as [He _].
       apply andb_true_iff in He. destruct He as [He Hcmd]. apply andb_true_iff in He. destruct He as [He _]. apply andb_true_iff in He. destruct He as [_ Hcfg].
       assert (Hcfg': (match cfg with Some c => cfg_ok c | None => true end) = true).
       { destruct cfg as [c|]; [|reflexivity]. unfold cfg_text_ok in Hcfg. apply andb_true_iff in Hcfg. destruct Hcfg as [Hcfg _]. apply andb_true_iff in Hcfg. tauto. }
@@ -457,7 +481,7 @@ Proof.
           by (apply Nat.ltb_lt; cbn [length]; lia).
         rewrite Lt.
         set (x := mkMT (mkPT match t with Some t0 => t0 | None => [] end (c :: conts) (exps_of body) (code_of body) (S (idx + 1 + length comments))) cfg).
-        destruct (IH (first && false) (idx + length (render_elem (EScrut n cfg comments (Some (c, conts, body)) tail)))%nat None [] ic1 (x :: acc) Hd) as (t' & ic' & E).
+        destruct (IH (first && false) (idx + length (render_elem (EScrut n cfg hs comments (Some (c, conts, body)) tail)))%nat None [] ic1 (x :: acc) Hd) as (t' & ic' & E).
         exists t', ic'.
         change (mkPT match t with Some t0 => t0 | None => [] end (c :: conts) (exps_of body) (code_of body) (S (idx + 1 + length comments)) :: map mt_test acc) with (map mt_test (x :: acc)).
         change (cfg :: map mt_cfg acc) with (map mt_cfg (x :: acc)).
